@@ -18,7 +18,7 @@ import (
 
 // vh raft cfg <seed> <sequences> <steps> <outdir>
 //
-// Membership-changing runs of the cluster simulator (with crashes; no snapshots) are translated,
+// Runs of the cluster simulator (membership changes, crashes, snapshots, compaction, installation) are translated,
 // event by event, into actions of the abstract protocol with membership changes in the log
 // (coq/Abs/CfgRaft.v) plus what the nodes look like afterwards; Abs/CfgExec.v (run_hist) checks,
 // inside Coq, that every action is enabled and that the abstract nodes agree with the observed
@@ -137,6 +137,10 @@ func (a *cfgShadow) compacted(n *simNode, h absHint) {
 	}
 	a.ghost[id] = append(a.ghost[id], a.preReal[:k]...)
 }
+
+// cfgCrashEnabled: Abs/CfgRaft.v has the durable prefix, flush and crash steps (observations carry the durable
+// prefix and the runs contain crashes)
+var cfgCrashEnabled = true
 
 func (a *cfgShadow) obs(n *simNode) string {
 	r := n.r
@@ -435,12 +439,12 @@ func cfgMain(args []string) int {
 	// the scenario corpus: schedules with membership changes (crashes and snapshots are skipped in this mode)
 	nsc := 0
 	for _, sc := range scenarios {
-		if sc.static || sc.name == "bootstrap-after-voting" { // (that one delivers a hand-made vote request: not a history of real nodes)
+		if sc.name == "bootstrap-after-voting" { // (that one delivers a hand-made vote request: not a history of real nodes)
 			continue
 		}
 		nsc++
 		c := newScenarioCluster(w, out, sc.size, seed)
-		c.cfg, c.nosnap = newCfgShadow(), true
+		c.cfg = newCfgShadow()
 		c.cfg.start(c)
 		func() {
 			defer func() {
@@ -459,7 +463,10 @@ func cfgMain(args []string) int {
 		c := &simCluster{rnd: rnd, w: w, base: simTempDir(out, "cf"), opt: simOptions(1 << 16), nodes: map[uint64]*simNode{}, dirs: map[uint64]string{},
 			epoch: map[uint64]int{}, reqs: map[*replication]*appendReq{}, pipes: map[[2]uint64][]*simMsg{}, await: map[[2]uint64]int{}, piping: map[[2]uint64]bool{}, upd: map[uint64][]replUpdate{},
 			tasks: map[uint64][]*simTask{}, asked: map[uint64]map[uint64]bool{}, respCh: map[uint64]chan rpcResponse{},
-			elected: map[uint64]uint64{}, entries: map[[2]uint64]string{}, committed: map[uint64]string{}, cfg: newCfgShadow(), calm: s%2 == 1, nosnap: true, slow: s%4 == 3}
+			elected: map[uint64]uint64{}, entries: map[[2]uint64]string{}, committed: map[uint64]string{}, cfg: newCfgShadow(), calm: s%2 == 1, nosnap: s%4 == 0, slow: s%4 == 3}
+		if s%3 != 0 {
+			c.opt = simOptions(1024) // small segments: roll-over flushes, compaction, snapshot installation
+		}
 		size := []int{1, 2, 3, 3, 3, 4, 5}[rnd.Intn(7)]
 		boot := map[uint64]Node{}
 		for id := uint64(1); id <= uint64(size); id++ {
